@@ -19,7 +19,62 @@ package operator
 //@   loop 1 invariant forall p int :: off(b.buf) <= p && p < off(b.buf) + len(b.buf) ==> bucketChar(b.buf[p - off(b.buf)])
 
 // ---- replica ids ---------------------------------------------------------------------------------------------
+// ids(s): the slice holds 0,1,..,len-1 in order (stated over absolute positions of the backing array so that it
+// instantiates on any element term).
+//@ spec func idsInOrder(s []int32) bool = forall p int :: off(s) <= p && p < off(s) + len(s) ==> s[p - off(s)] == p - off(s)
 //@ func buildReplicaIDs
 //@   requires replicaCount <= 1073741824
-//@   ensures [C39.replica_ids_exact] (replicaCount <= 0 ==> len(result) == 0) && (replicaCount > 0 ==> len(result) == replicaCount) && (forall k int :: 0 <= k && k < len(result) ==> result[k] == k)
+//@   ensures [C39.replica_ids_exact] (replicaCount <= 0 ==> len(result) == 0) && (replicaCount > 0 ==> len(result) == replicaCount) && idsInOrder(result)
 //@   loop 1 invariant 0 <= i && i <= replicaCount && len(out) == replicaCount && (forall k int :: 0 <= k && k < i ==> out[k] == k)
+
+// ---- metadata snapshot -----------------------------------------------------------------------------------------
+// Number of broker replicas the snapshot is rendered for, the advertised port, and the address of broker i.
+// stableHost is the DNS name Kubernetes gives pod <name>-broker-<i> of a StatefulSet <name>-broker governed by
+// the headless service <name>-broker-headless in namespace ns.
+//@ spec func replicasOf(cluster *github.com/KafScale/platform/api/v1alpha1.KafscaleCluster) int32 = ite(cluster.Spec.Brokers.Replicas != nil && *cluster.Spec.Brokers.Replicas > 0, *cluster.Spec.Brokers.Replicas, 1)
+//@ spec func portOf(cluster *github.com/KafScale/platform/api/v1alpha1.KafscaleCluster) int32 = ite(cluster.Spec.Brokers.AdvertisedPort != nil && *cluster.Spec.Brokers.AdvertisedPort > 0, *cluster.Spec.Brokers.AdvertisedPort, 9092)
+//@ spec func stableHost(name string, ns string, i int32) string = name + "-broker-" + itoa(i) + "." + name + "-broker-headless" + "." + ns + ".svc.cluster.local"
+//@ spec func hostOf(cluster *github.com/KafScale/platform/api/v1alpha1.KafscaleCluster, i int32) string = ite(replicasOf(cluster) > 1 || trimSpace(cluster.Spec.Brokers.AdvertisedHost) == "", stableHost(cluster.Name, cluster.Namespace, i), trimSpace(cluster.Spec.Brokers.AdvertisedHost))
+
+//@ func BuildClusterMetadata
+//@   requires cluster.Spec.Brokers.Replicas != nil ==> *cluster.Spec.Brokers.Replicas <= 1048576
+//@   requires forall t int :: 0 <= t && t < len(topics) ==> 0 <= topics[t].Spec.Partitions && topics[t].Spec.Partitions <= 1048576
+//@   at TopicIDForName#* havoc
+//@   ensures [C39.one_broker_per_replica] len(result.Brokers) == replicasOf(cluster)
+//@   ensures [C39.broker_ids_and_addresses] forall i int :: 0 <= i && i < len(result.Brokers) ==> result.Brokers[i].NodeID == i && result.Brokers[i].Port == portOf(cluster) && result.Brokers[i].Host == hostOf(cluster, i)
+//@   ensures [C39.one_topic_entry_per_topic] len(result.Topics) == len(topics) && result.ControllerID == 0
+//@   at append#1 before assert [C39.topic_entry_name_and_size] len(arg1) == 1 && arg1[0].Topic != nil && *arg1[0].Topic == topics[rangeindex].Name && len(arg1[0].Partitions) == topics[rangeindex].Spec.Partitions && len(metaTopics) == rangeindex
+//@   at append#1 before assert [C39.partitions_dense_from_zero] forall j int :: 0 <= j && j < len(arg1[0].Partitions) ==> arg1[0].Partitions[j].Partition == j
+//@   at append#1 before assert [C39.leader_is_a_listed_broker] forall j int :: 0 <= j && j < len(arg1[0].Partitions) ==> 0 <= arg1[0].Partitions[j].Leader && arg1[0].Partitions[j].Leader < replicasOf(cluster)
+//@   at append#1 before assert [C39.replica_sets_are_the_brokers] forall j int :: 0 <= j && j < len(arg1[0].Partitions) ==> sameSlice(arg1[0].Partitions[j].Replicas, replicaIDs) && sameSlice(arg1[0].Partitions[j].ISR, replicaIDs)
+//@   at append#1 before assert [C39.replica_ids_are_all_brokers] len(replicaIDs) == replicasOf(cluster) && idsInOrder(replicaIDs)
+//@   loop 1 invariant 0 <= i && i <= replicas
+//@   loop 1 invariant replicas == replicasOf(cluster) && len(brokers) == replicas
+//@   loop 1 invariant brokerPort == portOf(cluster)
+//@   loop 1 invariant advertisedHost == trimSpace(cluster.Spec.Brokers.AdvertisedHost)
+//@   loop 1 invariant headlessSvc == cluster.Name + "-broker-headless"
+//@   loop 1 invariant forall k int :: 0 <= k && k < i ==> brokers[k].NodeID == k && brokers[k].Port == portOf(cluster) && brokers[k].Host == hostOf(cluster, k)
+//@   loop 2 invariant -1 <= rangeindex && rangeindex < len(topics) && len(metaTopics) == rangeindex + 1 && replicas == replicasOf(cluster) && len(replicaIDs) == replicas && idsInOrder(replicaIDs)
+//@   loop 3 invariant 0 <= i && i <= topic.Spec.Partitions && len(partitions) == topic.Spec.Partitions && topic.Spec.Partitions == topics[rangeindex].Spec.Partitions
+//@   loop 3 invariant forall j int :: 0 <= j && j < i ==> partitions[j].Partition == j && 0 <= partitions[j].Leader && partitions[j].Leader < replicas && sameSlice(partitions[j].Replicas, replicaIDs) && sameSlice(partitions[j].ISR, replicaIDs)
+
+// Every bucket name the operator derives (no override configured) has the shape of a valid S3 bucket name:
+// 1..63 characters from [a-z0-9-], first and last alphanumeric. (The S3 minimum of three characters is not part
+// of this clause, see props/C39.json.)
+//@ func defaultEtcdSnapshotBucket
+//@   ensures [C39.derived_bucket_is_valid_shape] validBucketShape(result)
+
+// ---- the brokers the operator deploys ------------------------------------------------------------------------
+// The StatefulSet rendered for the brokers is <name>-broker, governed by the headless service
+// <name>-broker-headless (the two names stableHost is built from), with the replica count of the spec
+// (3 when the spec leaves it out; the CRD requires >= 1 and defaults it to 3, so under CRD validity this is
+// replicasOf(cluster), the number of brokers the snapshot lists). Asserted where the mutate closure has assigned
+// both fields, just before it renders the container (the rest of the closure - container, owner reference - does
+// not assign them and is cut).
+//@ func (r *ClusterReconciler) reconcileBrokerDeployment$1
+//@   at brokerContainer#1 before assert [C39.statefulset_replicas_from_spec] (*sts).Spec.Replicas != nil && *(*sts).Spec.Replicas == ite((*cluster).Spec.Brokers.Replicas != nil, *(*cluster).Spec.Brokers.Replicas, 3) && ((*cluster).Spec.Brokers.Replicas != nil && *(*cluster).Spec.Brokers.Replicas >= 1 ==> *(*sts).Spec.Replicas == replicasOf(*cluster))
+//@   at brokerContainer#1 before assert [C39.statefulset_governing_service] (*sts).Spec.ServiceName == (*cluster).Name + "-broker-headless"
+//@   at brokerContainer#1 before stop
+//@ func (r *ClusterReconciler) reconcileBrokerDeployment
+//@   at CreateOrUpdate#1 before assert [C39.statefulset_name] sts != nil && sts.Name == cluster.Name + "-broker" && sts.Namespace == cluster.Namespace
+//@   at CreateOrUpdate#1 before stop
